@@ -2,6 +2,7 @@ package main
 
 import (
 	"fmt"
+	"runtime"
 	"strings"
 	"sync"
 	"sync/atomic"
@@ -19,7 +20,14 @@ import (
 func execWorkerT3(t *trace, script []string) {
 	for _, line := range script {
 		f := strings.Fields(line)
-		if len(f) != 4 || f[0] != "run" {
+		// "churn": the same program without any pause between Do and done and between rounds — the windows between the
+		// watcher's critical sections are a few instructions wide and are only met by holders that hammer the Worker
+		if len(f) == 4 && f[0] == "hammer" {
+			t.Line(line, workerHammer(atoi(f[1]), atoi(f[2]), atoi(f[3])))
+			continue
+		}
+		churn := len(f) == 4 && f[0] == "churn"
+		if len(f) != 4 || (f[0] != "run" && !churn) {
 			continue
 		}
 		holders, rounds, seed := atoi(f[1]), atoi(f[2]), atoi(f[3])
@@ -84,10 +92,15 @@ func execWorkerT3(t *trace, script []string) {
 					tokenOf[g] = tk
 					pmu.Unlock()
 					d := w.Do(fn)
-					perturb(r)
-					perturb(r)
+					if !churn {
+						perturb(r)
+						perturb(r)
+					}
 					log.Add("done %d", tk)
 					d()
+					if churn {
+						continue
+					}
 					perturb(r)
 					if r.Chance(30) {
 						time.Sleep(time.Duration(r.Intn(200)) * time.Microsecond)
@@ -115,7 +128,55 @@ func execWorkerT3(t *trace, script []string) {
 	}
 }
 
+// hammer: no event log at all (its mutex would serialise the holders): holders take and release the Worker as fast as they can
+// for a fixed time; the instance function itself checks, when it sees stop closed, a harness-side count of holders that are
+// between "Do returned" and "done called".  Any such holder is one the Worker must still be running for (C17: stopped only
+// after every holder is done) — the check needs no model and cannot misfire: the count only covers that interval.
+func workerHammer(holders, millis, seed int) string {
+	var w bigbuff.Worker
+	var held, bad, instances atomic.Int64
+	fn := func(stop <-chan struct{}) {
+		instances.Add(1)
+		<-stop
+		if held.Load() > 0 {
+			bad.Add(1)
+		}
+	}
+	var wg sync.WaitGroup
+	deadline := time.Now().Add(time.Duration(millis) * time.Millisecond)
+	root := rng.New(uint64(seed), "worker-hammer")
+	for h := 0; h < holders; h++ {
+		r := root.Fork()
+		wg.Add(1)
+		go func() {
+			defer wg.Done()
+			for k := 0; ; k++ {
+				if k%64 == 0 && time.Now().After(deadline) {
+					return
+				}
+				d := w.Do(fn)
+				held.Add(1)
+				if r.Intn(8) == 0 {
+					runtime.Gosched()
+				}
+				held.Add(-1)
+				d()
+			}
+		}()
+	}
+	if !waitTimeout(&wg, stepTimeout) {
+		return "stuck"
+	}
+	return fmt.Sprintf("held_when_stopped=%d", bad.Load())
+}
+
 func genWorkerT3(r *rng.R, tier string, i int) []string {
+	if i%12 == 5 {
+		return []string{fmt.Sprintf("hammer %d %d %d", 2+r.Intn(4), 120, r.Intn(1<<30))}
+	}
+	if i%12 == 11 {
+		return []string{fmt.Sprintf("churn %d %d %d", 2+r.Intn(4), 1500+r.Intn(1500), r.Intn(1<<30))}
+	}
 	return []string{fmt.Sprintf("run %d %d %d", 1+r.Intn(5), 2+r.Intn(6), r.Intn(1<<30))}
 }
 
